@@ -236,7 +236,13 @@ func (b *recBlock) Put(sizeBytes int64) local.BlockPutWriter {
 			e.finalizeTime[g] = e.s.Now()
 			e.lastFinalizeSeq = e.s.Steps
 			off, err := f()
-			e.putRecs = append(e.putRecs, &putRec{Block: b.rec, Off: off, Size: sizeBytes, G: g, Seq: e.s.Steps, OK: err == nil})
+			pr := &putRec{Block: b.rec, Off: off, Size: sizeBytes, G: g, Seq: e.s.Steps, OK: err == nil}
+			if err == nil && e.data != nil && b.rec.Loc != nil {
+				if o := b.rec.Loc.OffsetBytes + off; o >= 0 && o+sizeBytes <= int64(len(e.data.Visible())) {
+					pr.Data = append([]byte{}, e.data.Visible()[o:o+sizeBytes]...)
+				}
+			}
+			e.putRecs = append(e.putRecs, pr)
 			return off, err
 		}
 	}
@@ -405,6 +411,7 @@ type putRec struct {
 	G      int
 	Seq    int // seq of the finalizer
 	OK     bool
+	Data   []byte // device content of the range when the finalizer returned (disk only): what was written
 }
 
 // detection is one negative data-integrity callback.
